@@ -216,6 +216,9 @@ func TestVerifC10(t *testing.T) {
 
 	for wl := 0; wl < nWorkloads; wl++ {
 		W := 1 + rng.Intn(3)
+		if wl == 0 {
+			W = 1 // scripted workload, see below
+		}
 		kind := wl % 3
 		nMsg := W + 3
 		acc := vNewAccount(t)
@@ -244,7 +247,14 @@ func TestVerifC10(t *testing.T) {
 		// workload: scripted skeleton + random fill
 		var ops []c10op
 		ops = append(ops, c10op{"reg", 1, rng.Intn(2)})
-		for i := 0; i < 6+rng.Intn(8); i++ {
+		nfill := 6 + rng.Intn(8)
+		if wl == 0 {
+			// scripted: window 1, sender 1 registered at 0, its messages opened in order — every mutation
+			// of every open is a crash point after which the remaining messages must still open
+			ops = []c10op{{"reg", 1, 0}, {"open", 1, 1}, {"open", 1, 2}, {"open", 1, 3}}
+			nfill = 0
+		}
+		for i := 0; i < nfill; i++ {
 			switch x := rng.Intn(10); {
 			case x < 5:
 				ops = append(ops, c10op{"open", 1 + rng.Intn(2), 1 + rng.Intn(nMsg)})
@@ -450,7 +460,7 @@ func TestVerifC10(t *testing.T) {
 			}
 			// (5) continuing after restart: with retries every message of a registered sender, and of a
 			// sender registered afterwards, eventually opens (no key is lost for later messages)
-			if cp%3 == 0 || vharness.Thorough() {
+			if cp%3 == 0 || wl == 0 || vharness.Thorough() {
 				s5 := restart()
 				for d := 1; d <= 2; d++ {
 					// registration point: the first announcement delivered for d in the workload if its chain key
@@ -481,7 +491,22 @@ func TestVerifC10(t *testing.T) {
 					}
 					for k := range pending {
 						if k > regAt {
-							fail("message key lost after a crash", fmt.Sprintf("workload %d crash after mutation %d/%d (during op %d %v): continuing after restart, message %d of sender %d (registered at %d, window %d) never opens", wl, cp, total, done, opAt(ops, done), k, d, regAt, W))
+							sig := "message key lost after a crash"
+							// the stop fell strictly inside the writes of an open of this sender: the retried message
+							// opens by its identifier and skips the advance of the ratchet
+							if done < len(ops) && ops[done].kind == "open" && ops[done].d == d && cp > recs[done].from && cp < recs[done].to && k > ops[done].n {
+								// ... and that is the whole story: at the stop the message key is stored under the
+								// message identifier while the stored chain key is still the one the open started
+								// with (a chain key that moved, or a missing by-identifier key, is another defect)
+								sb, sc := before(), restart()
+								ckb, errb := sb.getDeviceChainKeyForGroupAndDevice(ctx, gpk, senders[d-1].dev)
+								ckc, errc := sc.getDeviceChainKeyForGroupAndDevice(ctx, gpk, senders[d-1].dev)
+								_, errk := sc.getKeyForCID(ctx, senders[d-1].cids[ops[done].n])
+								if errb == nil && errc == nil && errk == nil && ckb.Counter == ckc.Counter && bytes.Equal(ckb.ChainKey, ckc.ChainKey) {
+									sig = "ratchet advance lost by a stop inside the post-decrypt writes of an open"
+								}
+							}
+							fail(sig, fmt.Sprintf("workload %d crash after mutation %d/%d (during op %d %v): continuing after restart, message %d of sender %d (registered at %d, window %d) never opens", wl, cp, total, done, opAt(ops, done), k, d, regAt, W))
 						}
 					}
 				}
